@@ -128,6 +128,14 @@ def run(ctx):
         elif f[0] == "EVALS":
             ctx.cov["evaluations"] += int(f[1])
             ctx.notes["search_evaluations"] = int(f[1])
+    ctx.notes["hygiene_oracles"] = (
+        "harness/c06/hygiene.go: key / iv reach InitProtect, EncryptFragment in one buffer per argument that is refilled in place for "
+        "every call (32 guard bytes behind it), kid and the DecryptFragment / DecryptSegment keys as private copies; all must come back "
+        "unchanged and are overwritten as soon as the call has returned, BEFORE init / fragments / files are encoded (aliasing of "
+        "arguments); the mdat payload stands between guard bytes during EncryptFragment and DecryptFragment (in place on the sample "
+        "bytes only); around every checked DecryptFragment another decoding of the same bytes is decrypted with a key the cipher "
+        "refuses (before) and with the right key (after: same bytes) - a failed call must not influence the next one; the file "
+        "round trip does the refused-key decryption of a second decoding first.")
     unknown = 0
     for f in fails:
         if ctx.failing_input(f[1], f[2], f[3], f[4]):
